@@ -151,6 +151,6 @@ package tags
 //@ at call RenderBlock #1 assert elseClause: arg1 == node.Clauses[0] && node.Clauses[0].Name == "else"
 //@ at call render #1: looped = true
 //@ at call render #1 assert selected: arg1.Len() > 0 || len(node.Clauses) != 1 || node.Clauses[0].Name != "else"
-//@ ensures elseWhenEmpty: decided && nothing && len(node.Clauses) == 1 && node.Clauses[0].Name == "else" ==> elseRendered && !looped
+//@ ensures elseWhenEmpty: decided && nothing && old(len(node.Clauses) == 1 && node.Clauses[0].Name == "else") ==> elseRendered && !looped
 //@ ensures elseOnlyWhenEmpty: elseRendered ==> nothing
-//@ ensures loopOtherwise: decided && !nothing && len(node.Clauses) <= 1 ==> looped && !elseRendered
+//@ ensures loopOtherwise: decided && !nothing && old(len(node.Clauses)) <= 1 ==> looped && !elseRendered
